@@ -43,6 +43,7 @@ func main() {
 	out := flag.String("out", "", "")
 	extra := flag.String("extra", "", "comma-separated extra source files (dependency modules) to rewrite like repository files")
 	funcPoints := flag.Bool("funcpoints", false, "insert a scheduling point at the entry of every function of the repository's own packages")
+	deps := flag.String("deps", "", "comma-separated importpath=dir: dependency packages whose only job is to make goroutines wait for each other; a rewritten copy becomes a virtual package of the repository module and the repository's imports are redirected to it")
 	racePool := flag.String("racepool", "", "GOROOT: overlay sync/pool.go without its race annotations (race-oracle builds)")
 	flag.Parse()
 	if *out == "" {
@@ -84,6 +85,11 @@ func main() {
 
 	// rewritten copies of repo files
 	var rewritten []string
+	for _, kv := range strings.Split(*deps, ",") {
+		if i := strings.Index(kv, "="); i > 0 {
+			depDirs[kv[:i]] = kv[i+1:]
+		}
+	}
 	for _, top := range []string{"internal", "cmd"} {
 		root := filepath.Join(*repo, top)
 		must(filepath.Walk(root, func(p string, info os.FileInfo, err error) error {
@@ -148,6 +154,35 @@ func main() {
 		replace[p] = dst
 		rewritten = append(rewritten, p)
 	}
+	for ip, dir := range depDirs {
+		if !depUsed[ip] {
+			continue
+		}
+		ents, err := os.ReadDir(dir)
+		must(err)
+		for _, e := range ents {
+			n := e.Name()
+			if e.IsDir() || !strings.HasSuffix(n, ".go") || strings.HasSuffix(n, "_test.go") {
+				continue
+			}
+			p := filepath.Join(dir, n)
+			src, err := os.ReadFile(p)
+			must(err)
+			virt := filepath.Join(*repo, "zzverif", "dep", filepath.Base(ip), n)
+			fpName = ""
+			newSrc, changed, err := rewrite(p, src)
+			must(err)
+			if !changed {
+				replace[virt] = p
+				continue
+			}
+			dst := filepath.Join(*out, "rw", "depv", filepath.Base(ip), n)
+			must(os.MkdirAll(filepath.Dir(dst), 0o755))
+			must(os.WriteFile(dst, newSrc, 0o644))
+			replace[virt] = dst
+			rewritten = append(rewritten, ip+"/"+n)
+		}
+	}
 	sort.Strings(rewritten)
 
 	// race-oracle builds: sync.Pool hands objects from one thread to the next and annotates that as a
@@ -187,6 +222,12 @@ type rw struct {
 	n          int
 }
 
+// depDirs: import path -> source directory of dependency packages to virtualise; depUsed: those the repository imports
+var depDirs = map[string]string{}
+var depUsed = map[string]bool{}
+
+var builtinFuncs = map[string]bool{"panic": true, "close": true, "print": true, "println": true, "delete": true, "clear": true}
+
 // fpName: when non-empty, function-entry scheduling points are inserted (value = package directory)
 var fpName string
 
@@ -210,6 +251,12 @@ func rewrite(path string, src []byte) ([]byte, bool, error) {
 			imp.Name = ast.NewIdent(name)
 			imp.Path.Value = strconv.Quote(mod + "/zzverif/vsync")
 			r.changed = true
+		default:
+			if _, ok := depDirs[p]; ok {
+				depUsed[p] = true
+				imp.Path.Value = strconv.Quote(mod + "/zzverif/dep/" + filepath.Base(p))
+				r.changed = true
+			}
 		case "time":
 			r.timeName = "time"
 			if imp.Name != nil {
@@ -359,7 +406,11 @@ func (r *rw) fixGo(g *ast.GoStmt) ast.Stmt {
 	r.n++
 	var stmts []ast.Stmt
 	fnName := fmt.Sprintf("zzfn%d", r.n)
-	stmts = append(stmts, &ast.AssignStmt{Lhs: []ast.Expr{ast.NewIdent(fnName)}, Tok: token.DEFINE, Rhs: []ast.Expr{call.Fun}})
+	if id, ok := call.Fun.(*ast.Ident); ok && id.Obj == nil && builtinFuncs[id.Name] {
+		fnName = id.Name // a built-in cannot be bound to a variable
+	} else {
+		stmts = append(stmts, &ast.AssignStmt{Lhs: []ast.Expr{ast.NewIdent(fnName)}, Tok: token.DEFINE, Rhs: []ast.Expr{call.Fun}})
+	}
 	var args []ast.Expr
 	for i, a := range call.Args {
 		an := fmt.Sprintf("zzarg%d_%d", r.n, i)
